@@ -103,7 +103,7 @@ class C13(Prop):
             "via_clone": st.integers(0, 4).map(lambda v: v == 0),
             "edits": st.one_of(st.just([]), st.lists(st.fixed_dictionaries({
                 "k": st.sampled_from(["del_name", "name_none", "rename", "del_id", "pop_id", "pop_name",
-                                      "set_id"]),
+                                      "set_id", "bulk_remove", "bulk_remove"]),
                 "i": st.integers(0, 60), "v": st.integers(0, 20)}), max_size=4)),
         })
 
@@ -134,14 +134,43 @@ class C13(Prop):
         # naming edits through the public API before the queries (un-naming, renaming, dropping or
         # setting identifiers): exact patterns take the accelerated lookup, the others scan
         self.freed = {".NAME": set(), "EDIF.identifier": set()}
+
+        def container_of(E):
+            for attr, f in (("netlist", sdn.get_libraries), ("library", sdn.get_definitions),
+                            ("definition", sdn.get_ports if isinstance(E, sdn.Port) else sdn.get_cables),
+                            ("parent", sdn.get_instances)):
+                v = getattr(E, attr, None)
+                if v is not None and not callable(v) and not isinstance(E, sdn.Netlist):
+                    return v, f
+            return None, None
+        probes = []   # (edit kind, container before the edit, getter, element)
         for e in case.get("edits") or []:
             E = els[e["i"] % len(els)]
             for kk in self.freed:
                 if isinstance(E.data.get(kk), str) and E.data[kk]:
                     self.freed[kk].add(E.data[kk])   # a value an edit may free: still asked for below
+            par0, fn0 = container_of(E)
+            probes.append((e["k"], par0, fn0, E))
             try:
                 k = e["k"]
-                if k == "del_name":
+                if k == "bulk_remove":
+                    # the element and its next sibling leave their container in one bulk call
+                    if isinstance(E, sdn.Instance) and par0 is not None:
+                        sib = list(par0.children)
+                        par0.remove_children_from([E, sib[(sib.index(E) + 1) % len(sib)]])
+                    elif isinstance(E, sdn.Cable) and par0 is not None:
+                        sib = list(par0.cables)
+                        par0.remove_cables_from([E, sib[(sib.index(E) + 1) % len(sib)]])
+                    elif isinstance(E, sdn.Port) and par0 is not None:
+                        sib = list(par0.ports)
+                        par0.remove_ports_from([E, sib[(sib.index(E) + 1) % len(sib)]])
+                    elif isinstance(E, sdn.Definition) and par0 is not None and not E.references:
+                        par0.remove_definitions_from([E])
+                    else:
+                        raise ValueError("not applicable")
+                    for x in list(els):
+                        pass
+                elif k == "del_name":
                     del E.name
                 elif k == "name_none":
                     E.name = None
@@ -161,16 +190,8 @@ class C13(Prop):
         self.nl = nl
         self.policy = case.get("policy", "DEFAULT")
         # every value an edit touched is asked for by exact pattern at the edited element's container
-        for e in case.get("edits") or []:
-            E = els[e["i"] % len(els)]
-            par, fn = None, None
-            for attr, f in (("netlist", sdn.get_libraries), ("library", sdn.get_definitions),
-                            ("definition", sdn.get_ports if isinstance(E, sdn.Port) else sdn.get_cables),
-                            ("parent", sdn.get_instances)):
-                v = getattr(E, attr, None)
-                if v is not None and not callable(v) and not isinstance(E, sdn.Netlist):
-                    par, fn = v, f
-                    break
+        for ek, par, fn, E in probes:
+            e = {"k": ek}
             if par is None:
                 continue
             for key in (".NAME", "EDIF.identifier"):
